@@ -413,7 +413,11 @@ def _sequence_common_getitem_impl(ctx: CallContext, typ: type) -> ImplReturn:
         key = replace_known_sequence_value(key)
         if not TypedValue(slice).is_assignable(key, ctx.visitor):
             key, _ = ctx.visitor._check_dunder_call(
-                ctx.ast_for_arg("obj"), Composite(key), "__index__", [], allow_call=True
+                ctx.ast_for_arg("obj") or ctx.node,
+                Composite(key),
+                "__index__",
+                [],
+                allow_call=True,
             )
 
         if isinstance(key, KnownValue):
